@@ -11,7 +11,7 @@ m['seed'] = name
 m['property'] = name.split('-')[0]
 if len(sys.argv) > 2:
     m['needs_to_manifest'] = sys.argv[2]
-m.setdefault('origin', 'independent sub-agent (third round: told the two earlier bugs for this property and asked for another site, mechanism and clause) given the property text and a scratch worktree of /repo' if name.endswith('-c') else 'independent sub-agent (fourth round: told the three earlier bugs for this property and asked for a dimension none of them involves) given the property text and a scratch worktree of /repo' if name.endswith('-d') else 'independent sub-agent (fifth round: told the four earlier bugs for this property and pointed at what a test author holds fixed) given the property text and a scratch worktree of /repo' if name.endswith('-e') else 'independent sub-agent (sixth round: told the five earlier bugs for this property and given a list of places to look: error paths, cleanup, carried-over state, long sessions, comparison boundaries, defaults, rare schemes, third-party-visible details) given the property text and a scratch worktree of /repo' if name.endswith('-f') else 'independent sub-agent (seventh round: told the six earlier bugs for this property; asked to enumerate the clauses and quantified dimensions left untouched, interactions of two features, second occurrences, integer widths, first-match logic, early returns) given the property text and a scratch worktree of /repo' if name.endswith('-g') else 'independent sub-agent (eighth round: told the seven earlier bugs for this property; asked for a behaviour a user relies on that none of them touches, in a configuration a harness author would not think to vary) given the property text and a scratch worktree of /repo' if name.endswith('-h') else 'independent sub-agent (ninth round: told the eight earlier bugs for this property; asked to go through every public configuration field, API variant and callback and pick the one somebody testing this property would leave at its default or never call) given the property text and a scratch worktree of /repo' if name.endswith('-i') else 'independent sub-agent (tenth round: told the nine earlier bugs for this property; asked to pick one of five families - internal constants and thresholds, two of something, after an error, time (equality, repeated or backward caller clock), later cycles) given the property text and a scratch worktree of /repo' if name.endswith('-j') else 'independent sub-agent (eleventh round: told the ten earlier bugs for this property; asked for a rarely taken branch a valid input can reach, or a secondary public entry point with a partly separate code path) given the property text and a scratch worktree of /repo' if name.endswith('-k') else 'independent sub-agent (twelfth round) given the property text and a scratch worktree of /repo' if name.endswith('-l') else 'independent sub-agent (second round: told only to avoid the code site of the first seed) given the property text and a scratch worktree of /repo' if name.endswith('-b') else 'independent sub-agent given the property text and a scratch worktree of /repo')
+m.setdefault('origin', 'independent sub-agent (third round: told the two earlier bugs for this property and asked for another site, mechanism and clause) given the property text and a scratch worktree of /repo' if name.endswith('-c') else 'independent sub-agent (fourth round: told the three earlier bugs for this property and asked for a dimension none of them involves) given the property text and a scratch worktree of /repo' if name.endswith('-d') else 'independent sub-agent (fifth round: told the four earlier bugs for this property and pointed at what a test author holds fixed) given the property text and a scratch worktree of /repo' if name.endswith('-e') else 'independent sub-agent (sixth round: told the five earlier bugs for this property and given a list of places to look: error paths, cleanup, carried-over state, long sessions, comparison boundaries, defaults, rare schemes, third-party-visible details) given the property text and a scratch worktree of /repo' if name.endswith('-f') else 'independent sub-agent (seventh round: told the six earlier bugs for this property; asked to enumerate the clauses and quantified dimensions left untouched, interactions of two features, second occurrences, integer widths, first-match logic, early returns) given the property text and a scratch worktree of /repo' if name.endswith('-g') else 'independent sub-agent (eighth round: told the seven earlier bugs for this property; asked for a behaviour a user relies on that none of them touches, in a configuration a harness author would not think to vary) given the property text and a scratch worktree of /repo' if name.endswith('-h') else 'independent sub-agent (ninth round: told the eight earlier bugs for this property; asked to go through every public configuration field, API variant and callback and pick the one somebody testing this property would leave at its default or never call) given the property text and a scratch worktree of /repo' if name.endswith('-i') else 'independent sub-agent (tenth round: told the nine earlier bugs for this property; asked to pick one of five families - internal constants and thresholds, two of something, after an error, time (equality, repeated or backward caller clock), later cycles) given the property text and a scratch worktree of /repo' if name.endswith('-j') else 'independent sub-agent (eleventh round: told the ten earlier bugs for this property; asked for a rarely taken branch a valid input can reach, or a secondary public entry point with a partly separate code path) given the property text and a scratch worktree of /repo' if name.endswith('-k') else 'independent sub-agent (twelfth round: told the eleven earlier bugs for this property; asked for a bug that needs TWO unusual-but-valid settings or events at once, each harmless alone) given the property text and a scratch worktree of /repo' if name.endswith('-l') else 'independent sub-agent (second round: told only to avoid the code site of the first seed) given the property text and a scratch worktree of /repo' if name.endswith('-b') else 'independent sub-agent given the property text and a scratch worktree of /repo')
 def lines(f):
     f = os.path.join(d, f)
     return [l.rstrip('\n') for l in open(f)] if os.path.exists(f) else []
